@@ -69,6 +69,17 @@ Theorem C07_value : forall prog d res,
 Proof. exact value_wire. Qed.
 Print Assumptions C07_value.
 
+(* 4'. Explicit hold (`r.next |= r`, the rhs wire is the register itself): if that branch is the unique
+       active one the register keeps its value, whatever default is declared for it (the declared
+       default applies only when NO assigning branch is active). *)
+Theorem C07_explicit_hold : forall prog d res, elab prog d = Some res ->
+  forall i, In (LW (TReg i)) (map fst (slits prog)) ->
+  exists e, res_get res (LW (TReg i)) = Some (FVal e) /\
+    forall E r, active_for (e_pred E) prog (LW (TReg i)) = [PVal r] ->
+                e_leaf E r = e_reg E i -> veval E e = e_reg E i.
+Proof. exact explicit_hold. Qed.
+Print Assumptions C07_explicit_hold.
+
 (* 5. Value theorem, memories: the combined write port has enable 0 when no assigning branch is
       active (memory not written), else exactly the active branch's address, data and enable. *)
 Theorem C07_memory : forall prog d res,
